@@ -179,7 +179,7 @@ MAKE_ROLES = [
     (('_target_variables',), ('shell', 'clean'), 'target variables',
      'shell'),
     (('_global_variables',), ('shell', 'clean'), 'global variables', 'shell'),
-    (('_includes', 'name'), ('target',), 'include operands', 'target'),
+    (('_includes',), ('target',), 'include operands', 'target'),
 ]
 DEPFILE_ROLES = [
     (('seen_dirs',), ('target', 'dependency'), 'depfile directories',
@@ -246,6 +246,24 @@ def _cls_effects(F, W, pred):
             if e.fn.cls is W.cls]
 
 
+def _unpacked_from_quoter(F, fn, name):
+    """Every definition of the local is a tuple-unpacking of a call of a
+    parameter of fn (the quoting callable handed to the writer)."""
+    ds = []
+    for n in walk_no_nested(fn.node):
+        if isinstance(n, ast.Assign):
+            for t in n.targets:
+                if isinstance(t, ast.Tuple) and any(
+                        isinstance(x, ast.Name) and x.id == name.id
+                        for x in t.elts):
+                    ds.append(n.value)
+                elif isinstance(t, ast.Name) and t.id == name.id:
+                    ds.append(None)
+    return bool(ds) and all(
+        isinstance(v, ast.Call) and isinstance(v.func, ast.Name) and
+        v.func.id in Q.params(fn.node) for v in ds)
+
+
 def write_flow(ctx, syn_mod, shelly_members, has_escape=True,
                rule_id='WRITE-FLOW'):
     repo = ctx.repo
@@ -309,6 +327,11 @@ def write_flow(ctx, syn_mod, shelly_members, has_escape=True,
                 kinds.add('raw-thing')
             elif isinstance(v, ast.Name) and v.id in Q.params(e.fn.node):
                 kinds.add('raw-thing')
+            elif isinstance(v, ast.Name) and _unpacked_from_quoter(
+                    F, e.fn, v):
+                # text, flag = shell_quote(thing): the (possibly quoted)
+                # fragment itself
+                kinds.add('raw-thing')
             else:
                 kinds.add('other:' + unparse(v)[:40])
         for k in sorted(kinds):
@@ -333,14 +356,21 @@ def write_flow(ctx, syn_mod, shelly_members, has_escape=True,
     # the "shell context" predicate: the comparison of the syntax parameter
     # with Syntax members in Writer.write
     got = None
-    preds = [n for n in ast.walk(W.node) if isinstance(n, ast.Compare) and
-             param_of(F.atoms(n.left, W), 'syntax') and has(
-                 F.atoms(n.comparators[0], W), 'Syntax')]
-    for t in preds[:1]:
+    preds = []
+    for g, b in F.frames(W, 1):
+        if g.cls is not W.cls:
+            continue
+        for n in ast.walk(g.node):
+            if isinstance(n, ast.Compare) and isinstance(
+                    n.left, ast.Name) and param_of(
+                        F.atoms(n.left, g, b), 'syntax') and has(
+                    F.atoms(n.comparators[0], g, b), 'Syntax'):
+                preds.append((n, n.left.id))
+    for t, pname in preds[:1]:
         g_ = set()
         for m in members:
             v = fold_test(repo, W.module, t, cls, {
-                'syntax': EnumMember(syn_mod + ':Syntax', m)})
+                pname: EnumMember(syn_mod + ':Syntax', m)})
             if v is None:
                 g_ = None
                 break
@@ -515,9 +545,21 @@ def sh_safe(ctx, include_make_recipe=False, rule_id='SH-SAFE'):
         c for c in rx.SIGMA if c not in bad)))
     # the test selects the quoting branch: the quoting return (flag True,
     # text with replaced quotes) is controlled by it
-    reps = [e for e in F.effects(f, lambda e: e.name == 'replace', depth=1)
-            if has_const(e.arg(0), "'")]
-    ok = bool(reps) and all(has_call(e.control(), 'search') for e in reps)
+    # the quote replacement: s.replace("'", X) or X.join(s.split("'"))
+    reps = []
+    for e in F.effects(f, lambda e: e.name in ('replace', 'join'), depth=1):
+        if e.name == 'replace' and has_const(e.arg(0), "'") and len(
+                e.call.args) == 2:
+            reps.append((e, e.call.args[1]))
+        elif e.name == 'join' and len(e.call.args) == 1 and isinstance(
+                e.call.func, ast.Attribute):
+            a = e.call.args[0]
+            if isinstance(a, ast.Call) and Q.callee_attr(a) == 'split' and \
+                    len(a.args) == 1 and const_eval(
+                        repo, e.fn.module, a.args[0]) == "'":
+                reps.append((e, e.call.func.value))
+    ok = bool(reps) and all(has_call(e.control(), 'search')
+                            for e, _ in reps)
     ctx.ob(R, 'inner_quote_info|bad-char-test-selects-quoting', ok,
            te.call, 'the bad-character test does not select the quoting '
            'branch')
@@ -536,9 +578,9 @@ def sh_safe(ctx, include_make_recipe=False, rule_id='SH-SAFE'):
                    .format(ch, why))
     ok = False
     detail = 'no s.replace("\'", ..) in the quoting branch'
-    for e in reps:
-        if len(e.call.args) == 2:
-            new = const_eval(repo, e.fn.module, e.call.args[1])
+    for e, new_e in reps:
+        if True:
+            new = const_eval(repo, e.fn.module, new_e)
             if isinstance(new, str):
                 lexed = T.sh_single_quote_lex("'a" + new + "b'")
                 ok = lexed == "a'b"
